@@ -200,6 +200,7 @@ class Interp:
         self.labels = {}
         self.cur_stmt = None
         self.fail_stmt = None
+        self.part = None           # sub-line part of a block statement being evaluated
         self.resumed = False
         self._collect()
 
@@ -870,12 +871,16 @@ class Interp:
         (ELSEIF, LOOP WHILE/UNTIL): errors are attributed to that line."""
         if part is None:
             return self.truth(cond)
+        saved = self.part
+        self.part = f"{s.get('id')}.{part}"
         try:
             return self.truth(cond)
         except QBError as e:
             if e.stmt is None:
                 e.stmt = f"{s.get('id')}.{part}"
             raise
+        finally:
+            self.part = saved
 
     def truth(self, cond):
         t, v = self.ev(cond)
@@ -952,12 +957,16 @@ class Interp:
         for ci, (tests, body) in enumerate(s['cases']):
             hit = False
             for ts in tests:
+                saved = self.part
+                self.part = f"{s.get('id')}.case{ci}"
                 try:
                     ok = test(ts)
                 except QBError as e:
                     if e.stmt is None:
                         e.stmt = f"{s.get('id')}.case{ci}"
                     raise
+                finally:
+                    self.part = saved
                 # every test of the clause is evaluated (an error in a later
                 # test of a matching clause still happens)
                 hit = hit or ok
